@@ -256,7 +256,14 @@ IN_VALUES = [
     ('{"__blots_function":"nonsense("}', FN),                  # not a function source: stays a record
     ('[{"__blots_function":"(x) => \'a\\"b\'"}, 1]', [FN, 1.0]),
     ('{"__blots_function":"(a, b?, ...r) => [a, b, r]"}', FN),
+    # records with different member sets: a later source REPLACES the value of a key, it is never merged into it
+    ('{"host":"a","port":1}', Obj([("host", "a"), ("port", 1.0)])), ('{"port":2}', Obj([("port", 2.0)])),
+    ('{"q":{"r":1,"s":{"t":1}}}', Obj([("q", Obj([("r", 1.0), ("s", Obj([("t", 1.0)]))]))])),
+    ('{"q":{"s":{"u":2}}}', Obj([("q", Obj([("s", Obj([("u", 2.0)]))]))])), ("{}", Obj()), ("[]", []),
+    ('[{"p":1}]', [Obj([("p", 1.0)])]),
 ]
+NESTED_OVERRIDE_VALUES = ['{"host":"a","port":1}', '{"port":2}', '{"q":{"r":1,"s":{"t":1}}}', '{"q":{"s":{"u":2}}}', "{}", "[]",
+                          '[{"p":1}]', '{"p":1}', "null", "1", '{"__blots_function":"sum"}', '{"host":null}']
 UNLOADABLE_VALUES = ['[{"__blots_function":"(x) => \'a\\"b\'"}, 1]', '[[{"__blots_function":"(y) => \'q\\"\'"}]]',
                      '[1, {"g": {"__blots_function":"() => \'\\"\'"}}]']
 BAD_JSON = ["{", "nope", '{"k":1,}', "", "{'k':1}", '{"k":1} x', "[1,"]
@@ -301,6 +308,14 @@ class CaseGen:
             if r.chance(1, 3):
                 flags.insert(r.below(len(flags)), '{"value_2": "from-object", "k": 1}')
                 flags = flags[:4]
+        elif r.chance(1, 6):
+            # override-focused: every source is an object and the SAME one or two keys hold record / list / scalar
+            # values with different member sets in successive sources (round 4, seed C19-8: a recursive merge of
+            # record values was seen once in 450 random cases, and then only as a model disagreement)
+            self.note("set:nested-override-focused")
+            ks = [r.choice(IN_KEYS) for _ in range(1 + r.below(2))]
+            flags = ["{" + ",".join('"%s":%s' % (k_, r.choice(NESTED_OVERRIDE_VALUES)) for k_ in ks) + "}"
+                     for _ in range(2 + r.below(3))]
         stdin = None
         if mode != "eval":
             k = r.below(8)
